@@ -6,6 +6,7 @@ of `tag` / `tag_no_case` literals handed to nom's `alt`, and the next-tighter le
 symbolically on every such token.  What is a contract: nom's `alt` is ordered choice, `tag` a prefix match (the first
 alternative that is a prefix of the input wins).  The solver searches over ALL input strings for one on which the alternative
 list picks something else than the documented operator standing at the front of it."""
+import os
 import re
 import z3
 import harness
@@ -29,7 +30,9 @@ def levels_from_mir(db):
             n = re.search(r'= \((?:parser::)?(op_[0-9_]+)::<[^>]*>, move _\d+\);', ln)
             if n and nxt is None:
                 nxt = n.group(1)
-        binary = any('many0::<' in ln for ln in f.raw_lines) and bool(toks)       # an op_rule! level: operand (op operand)*
+        # an op_rule! level is `operand (operator operand)*`: its many0 collects (operator token, operand value) PAIRS -- a level
+        # that loops over bare operator tokens (prefix operators written as a loop) is not a binary level
+        binary = bool(toks) and any(re.search(r'many0::<[^,]+, \((?:nom_locate::)?LocatedSpan<&str>, (?:script::)?Value\)', ln) for ln in f.raw_lines)
         if binary:
             out[m.group(1)] = {'tokens': toks, 'next': nxt, 'fn': f}
     return out
@@ -160,6 +163,102 @@ def spec_operator_tables(ck):
     ck.bounds['operator-tables'] = ('binary operators of the documented table (%d spellings) against the %d `alt` lists of the parser; inputs: every string that starts with the operator and is '
                                     'at most 2 characters longer; %d string queries' % (sum(len(s) for _, s in docs), len([1 for l in levels.values() if l['tokens']]), nq))
     return levels
+
+
+def documented_prefix_operators(readme_text):
+    """spellings of the documented prefix operators (syntax column `X …`), with their documented associativity"""
+    out = []
+    for ln in readme_text.split('\n'):
+        parts = [p.strip() for p in re.split(r'(?<!\\)\|', ln.strip().strip('|'))]
+        if len(parts) < 4 or not re.match(r'^\d+(?:\.\d+)?$', parts[0]):
+            continue
+        m = re.match(r'^`\s*([^`…\s(\[]+)\s*…\s*`$', parts[3])
+        if m:
+            out.append((m.group(1), parts[2].lower()))
+    return out
+
+
+def spec_prefix_operators(ck):
+    """the documented prefix operators (`!`, `~`, `-`: right-to-left) nest the way the documentation says: in `o1 o2 x` the
+    operator written first is applied last, i.e. the tree is o1(o2(x)) -- the same as the fully parenthesised `o1(o2(x))`.
+    Two ways of writing the level are understood: the level recursing into itself for its operand (right nesting by
+    construction; its closure must hand exactly (operator, operand) to the constructor), and a loop collecting the operators
+    followed by one operand (its closure is run on two operators and must build o1(o2(x)))."""
+    db = ck.dbs['milu']
+    try:
+        readme = open(os.path.join(harness.REPO, 'milu', 'readme.md'), encoding='utf-8').read()
+    except OSError:
+        readme = ''
+    docs = documented_prefix_operators(readme)
+    label = 'C09/prefix-operators/nest-right-to-left'
+    if not docs:
+        ck.add(label, 'undecided', 'anchor_missing: no prefix operators in the documented table')
+        return
+    want = set(sp for sp, _ in docs)
+    level = None
+    for f in db.fns:
+        if not re.match(r'^(?:parser::)?op_[0-9_]+$', f.name):
+            continue
+        toks = [bytes(t.group(2), 'utf-8').decode('unicode_escape') for ln in f.raw_lines
+                for t in [re.search(r'nom::bytes::complete::(tag|tag_no_case)::<[^(]*\(const "((?:[^"\\]|\\.)*)"\)', ln)] if t]
+        if toks and set(toks) == want:
+            level = f
+    if level is None:
+        ck.add(label, 'undecided', 'anchor_missing: no level of the parser lists exactly the documented prefix operators %s' % sorted(want))
+        return
+    ck.target(level)
+    name = re.sub(r'^parser::', '', level.name)
+    text = '\n'.join(level.raw_lines)
+    recursive = re.search(r'= \(move _\d+, (?:parser::)?%s::<' % re.escape(name), text) is not None
+    loop = re.search(r'many0::<[^,]+, (?:nom_locate::)?LocatedSpan<&str>,', text) is not None
+    clos = [g for g in db.fns if g.name.startswith(level.name + '::{closure#') and g.name.count('{closure#') == 1]
+    ex = ck.engine(db=db, loop_bound=5)
+    ex.benign_havoc = harness.IRRELEVANT
+
+    def parse1(ctx):
+        ctx.st.trace.append(('parse1', ctx.args[0], ctx.args[1]))
+        return Agg('Unary', {0: ctx.args[0], 1: ctx.args[1]})
+    ex.overrides.append((re.compile(r'(?:^|::)parse1$'), parse1))
+    o1, o2, x = Opaque('LocatedSpan<&str>', 'first-operator'), Opaque('LocatedSpan<&str>', 'second-operator'), Opaque('Value', 'operand')
+
+    def is_unary(v, op, inner):
+        return isinstance(v, Agg) and v.name == 'Unary' and v.fields[0] is op and (inner(v.fields[1]) if callable(inner) else v.fields[1] is inner)
+    decided = False
+    for c in clos:
+        if len(c.params) != 2:
+            continue
+        pty = c.params[1][1]
+        st = State()
+        env = Ref(st.alloc(Agg(c.params[0][1].strip().lstrip('&').replace('mut ', '').strip(), {})), ())
+        if recursive and re.search(r'^\((?:nom_locate::)?LocatedSpan<&str>, (?:script::)?Value\)$', pty.strip()):
+            outs = ex.call_fn(st, c, [env, Agg('tuple', {0: o1, 1: x})])
+            for o in outs:
+                if o.status == 'returned':
+                    decided = True
+                    ex.prove(o, label, z3.BoolVal(is_unary(o.ret, o1, x)))
+        elif loop and re.search(r'^\((?:std::vec::)?Vec<(?:nom_locate::)?LocatedSpan<&str>>, (?:script::)?Value\)$', pty.strip()):
+            ops = SeqV.from_items([o1, o2], 'LocatedSpan<&str>', 'vec')
+            outs = ex.call_fn(st, c, [env, Agg('tuple', {0: ops, 1: x})])
+            for o in outs:
+                if o.status == 'returned':
+                    decided = True
+                    ex.prove(o, label, z3.BoolVal(is_unary(o.ret, o1, lambda v: is_unary(v, o2, x))))
+    for f in ex.findings:
+        if not hasattr(f, 'target'):
+            f.target = 'prefix operators'
+    ck.plans.append(prefix_replay_plan)
+    if not decided:
+        ck.add(label, 'inconclusive', 'the prefix-operator level %s is written in a shape this check does not understand (recursive=%s loop=%s, %d closures)' % (name, recursive, loop, len(clos)))
+    ck.absorb(ex, 'parser::%s (prefix operators)' % name, None)
+    ck.bounds['prefix-operators'] = 'two stacked prefix operators on one operand; the level written as self-recursion or as a loop over operator tokens'
+
+
+def prefix_replay_plan(ob):
+    if (ob.target or '') != 'prefix operators' or not ob.label.startswith('C09/prefix-operators/'):
+        return None
+    # different prefix operators stacked on one operand, against the fully parenthesised spelling
+    cases = [{'driver': 'parse_pair', 'args': {'a': a, 'b': b}} for a, b in (('!~1', '!(~1)'), ('-!true', '-(!true)'), ('~-1', '~(-1)'), ('2 * ~-1', '2 * (~(-1))'))]
+    return 'milu_script', cases, lambda o: o.get('both_parsed') is True and o.get('same_tree') is False
 
 
 def spec_parse2_total(ck, levels):
